@@ -13,7 +13,7 @@ Separate Extraction
   CodecProofs.d13_class Codec.one_subject Codec.atmost_one_subject
   Bytes.bytes_eqb Bytes.noparen_ends
   Sql.empty_db Sql.no_faults Api.step Api.run Spec.spec_insert Spec.spec_delete Spec.spec_delete_q Spec.spec_transact Spec.spec_list
-  Sql.GetRelationTuples Sql.TraverseSubjectSetExpansion Sql.exists_relation_in Sql.ExistsRelationTuples Mapping.ToTuple Mapping.FromTuple Sql.write_stmts Sql.transact_stmts MappingProofs.direct Sql.defaultPageSize Spec.matches_api Spec.tuple_eqb Spec.norm Sql.exec_stmt Api.status_of Api.store_statuses
+  Sql.GetRelationTuples Sql.TraverseSubjectSetExpansion Sql.exists_relation_in Sql.ExistsRelationTuples Mapping.ToTuple Mapping.FromTuple Mapping.ToTree Sql.write_stmts Sql.transact_stmts MappingProofs.direct Sql.defaultPageSize Spec.matches_api Spec.tuple_eqb Spec.norm Sql.exec_stmt Api.status_of Api.store_statuses
   Engine.CheckRelationTuple Engine.allowed_of RefSem.ref Ast.config_has_not Ast.config_has_rewrites Transports.observe Transports.observe_batch Transports.decision Transports.reported
   Expand.BuildTree Expand.reach_within Expand.closure Expand.members Expand.height Expand.subjects Expand.unions Expand.edges
   Lexer.lex_all Lexer.tokens Parser.Parse SrcPos.to_src_pos SrcPos.newlines Typecheck.welltyped Typecheck.row_conforms Watcher.legacy_step Watcher.opl_step Watcher.visible Watcher.last_good.
